@@ -305,9 +305,17 @@ func (w *Witness) Update(pk *gabikeys.PublicKey, update *Update) error {
 	if err != nil {
 		return err
 	}
+	if w.U == nil || w.E == nil {
+		return errors.New("witness lacks u or e")
+	}
 	if newAcc.Index == ourAcc.Index {
 		if newAcc.Time <= ourAcc.Time {
 			return nil
+		}
+		// an accumulator of the same index with another value belongs to another chain (one key signs the accumulators
+		// of several credential types): adopting it would leave a witness that no longer matches its accumulator
+		if newAcc.Nu == nil || ourAcc.Nu == nil || newAcc.Nu.Cmp(ourAcc.Nu) != 0 {
+			return errors.New("update belongs to a different accumulator")
 		}
 		*w.SignedAccumulator = *update.SignedAccumulator
 		w.Updated = time.Unix(newAcc.Time, 0)
@@ -331,11 +339,13 @@ func (w *Witness) Update(pk *gabikeys.PublicKey, update *Update) error {
 	}
 
 	// u' = u^b * newNu^a mod n
+	ub, nua := new(big.Int).Exp(w.U, &b, pk.N), new(big.Int).Exp(newAcc.Nu, &a, pk.N)
+	if ub == nil || nua == nil {
+		// a negative Bezout coefficient on a value that is not invertible modulo n
+		return errors.New("nonrevocation witness invalidated by update")
+	}
 	newU := new(big.Int)
-	newU.Mul(
-		new(big.Int).Exp(w.U, &b, pk.N),
-		new(big.Int).Exp(newAcc.Nu, &a, pk.N),
-	).Mod(newU, pk.N)
+	newU.Mul(ub, nua).Mod(newU, pk.N)
 
 	if !verify(newU, w.E, newAcc, pk) {
 		return errors.New("nonrevocation witness invalidated by update")
